@@ -569,7 +569,12 @@ def k2_replay(topology, n, tree_kind, site_kind, tip_states, vals, second_round=
 # ------------------------------------------------------------------ driver
 def run_task(task, tr):
     kind = task[0]
-    if kind == 'K1':
+    if kind == 'K3':
+        # datatype tables and pattern compression with symbolic characters / columns (CrossHair, chk/c01_k3*.py)
+        from chk import c01_k3
+
+        c01_k3.run(tr, task[1])
+    elif kind == 'K1':
         k1_task(task[1:], tr)
     else:
         k2_task(task[1:], tr)
@@ -627,9 +632,13 @@ def body(chk):
         'constrained only to be row-stochastic; that p_t = exp(Qt) is C04, that site rates are normalised is C05',
         'site likelihoods are assumed positive (the argument of each log): the identities proved are between the '
         'site likelihoods themselves, positivity of the inputs is not needed for them',
-        'datatype tables / pattern compression run concretely on one alignment per n (symbolic-character checks: see notes)',
+        'K1/K2: datatype tables / pattern compression run concretely on one alignment per n; K3 (CrossHair) decides them '
+        'for symbolic characters, triplets and alignment columns',
     }
     pmap(run_task, tasks_for(chk.tier), chk.total)
+    # K3 spawns one CrossHair process per condition: run it after the solver tasks so that their wall-clock
+    # solver budgets are not eaten by CPU contention
+    pmap(run_task, [('K3', chk.tier)], chk.total)
 
 
 if __name__ == '__main__':
